@@ -1,3 +1,4 @@
+#![recursion_limit = "256"]
 mod check;
 mod exec;
 mod forkrun;
@@ -229,6 +230,7 @@ struct Agg {
     op_kinds: BTreeMap<String, u64>,
     refs_computed: u64,
     refs_crashed: u64,
+    degraded: u64,
 }
 
 impl Agg {
@@ -258,6 +260,7 @@ impl Agg {
             op_kinds: BTreeMap::new(),
             refs_computed: 0,
             refs_crashed: 0,
+            degraded: 0,
         }
     }
     fn bump(m: &mut BTreeMap<String, u64>, k: &str, by: u64) {
@@ -268,6 +271,9 @@ impl Agg {
         Self::bump(&mut self.per_stratum, &r.stratum, 1);
         self.refs_computed += r.refs_computed;
         self.refs_crashed += r.refs_crashed;
+        if r.degraded {
+            self.degraded += 1;
+        }
         if let Some(e) = r.herr {
             self.herrs.push((r.stratum.clone(), r.i, e, r.plan.clone()));
             return;
@@ -278,7 +284,7 @@ impl Agg {
         if r.nontrivial {
             self.ctx.insert(r.ctxkey);
         }
-        if r.stratum == "C" {
+        if r.stratum == "C" && !r.degraded {
             self.scheds.insert(r.schedkey);
         }
         self.canaries.insert(r.canary.clone());
@@ -512,6 +518,13 @@ fn cmd_run(args: &[String]) -> i32 {
         );
         return 2;
     }
+    if agg.degraded > 0 {
+        println!(
+            "WARNING {} of {} stratum-C executions could not be interleaved: the interleaved run blocked the simulator's only OS thread (a blocking primitive without a verif hook is held across a scheduling point). They were run with their callers one after another instead; concurrency was NOT explored for them.",
+            agg.degraded,
+            agg.per_stratum.get("C").copied().unwrap_or(0)
+        );
+    }
     let mut harness_errors = 0usize;
     if !agg.herrs.is_empty() {
         agg.herrs.sort_by(|a, b| (a.0.clone(), a.1).cmp(&(b.0.clone(), b.1)));
@@ -636,6 +649,7 @@ fn cmd_run(args: &[String]) -> i32 {
             "rule": "one evaluation = one simulated execution (a Plan run in a pristine forked process). Plans are a pure function of (VERIF_SEED, stratum, index): stratum A = one operation under 1+K hash bases / file enumeration orders; B = sequential call histories over 1-3 caller threads with faults and a sentinel phase; C = 2-4 concurrent callers as shuttle tasks under the simulator's seeded scheduler with faults and a sentinel phase. Non-trivial = at least two calls, or any fault fired (non-reference hash base, permuted enumeration, context switch, real or injected panic, failed call, env change, debug session). Distinct = distinct FNV-64 of (calls incl. program texts and options, sentinel, hash base, env, schedule actually taken).",
             "samples": agg.samples,
             "executions_per_stratum": agg.per_stratum,
+            "stratum_C_executions_not_interleaved": agg.degraded,
             "api_calls_executed": agg.calls,
             "calls_judged_against_reference": agg.judged,
             "calls_unjudged_reference_context_crashes": agg.unjudged,
